@@ -66,11 +66,12 @@ TOOL_FAILURE_PAT = re.compile(
 
 
 def H(harness, oid, what, functions=(), bound="", key=None, timeout=None, tiers=("quick", "thorough"),
-      flags=(), est=10, min_covers=1, stubs=(), replay=True, oracle_scenario=None):
+      flags=(), est=10, min_covers=1, stubs=(), replay=True, oracle_scenario=None, oracle_fallback=None, scenario_bin=None):
     """Build a harness spec dict (see module docstring)."""
     return dict(harness=harness, oid=oid, what=what, functions=list(functions), bound=bound, key=key or oid,
                 timeout=timeout, tiers=tuple(tiers), flags=list(flags), est=est, min_covers=min_covers,
-                stubs=list(stubs), replay=replay, oracle_scenario=oracle_scenario)
+                stubs=list(stubs), replay=replay, oracle_scenario=oracle_scenario, oracle_fallback=oracle_fallback,
+                scenario_bin=scenario_bin)
 
 
 def _timeout_of(spec):
@@ -317,6 +318,20 @@ def _decide(run, crate, spec, ob, slot):
         "-Z", "concrete-playback", "--concrete-playback=print"], max(tmo, 300) * 2, tag=".playback")
     ob.queries += 1
     tests = [t for t in parse_playback(out2) if t["check_kind"] != "cover"]
+    if not tests and spec.get("oracle_fallback"):
+        # no concrete values from Kani's playback run: concretise the oracle path natively (see oracle_scenario above)
+        per = crate.run_scenario(spec["oracle_fallback"], replay_bin=spec.get("scenario_bin"))
+        payload = dict(engine="K", engine_part="K", crate=crate.rel_dir, harness=spec["harness"], scenario=spec["oracle_fallback"],
+                       failed_checks=genuine, stubs=stubs, native=per, replay_bin=spec.get("scenario_bin") or crate.replay_bin,
+                       how="check <ID> --replay <this file>: native run of `<replay bin> --scenario ...` (witness search + real decoder)")
+        rep = [k for k, v in per.items() if v["rc"] == 1]
+        detail = "; ".join(f"{k}: rc={v['rc']} {v['out'].strip().splitlines()[-1] if v['out'].strip() else ''}" for k, v in per.items())
+        if rep:
+            path = run.write_replay(ob, payload)
+            return ob.set(core.VIOLATION, f"{fdesc}; Kani's playback gave no values (rc={rc2}); oracle path concretised natively ({detail})",
+                          solver="cbmc+cadical", solver_s=vt + dt2, replay=path)
+        return ob.set(core.INCONCLUSIVE, f"FAILED ({fdesc}); no playback values (rc={rc2}) and the oracle path could not be concretised natively ({detail})",
+                      solver="cbmc+cadical", solver_s=vt + dt2)
     if not tests:
         why = "the playback run timed out" if rc2 in (124, 137) else f"Kani printed no concrete counterexample (rc={rc2})"
         return ob.set(core.INCONCLUSIVE, f"FAILED ({fdesc}) but {why}", solver="cbmc+cadical", solver_s=vt + dt2)
